@@ -594,6 +594,9 @@ func planC07(g *Gen, tier string) GenOutput {
 	return res
 }
 
+// index labels of mixed types whose printed forms coincide: Loc must match by identity, not by text
+var locAlphabet = []Cell{IntCell("int", 1), IntCell("int", 2), StrCell("1"), StrCell("a"), NilCell(), StrCell("<nil>"), F64Cell(1), IntCell("int64", 1), BoolCell(true), StrCell("true"), StrCell("2")}
+
 // ---------------- C08: selection ----------------
 func planC08(g *Gen, tier string) GenOutput {
 	res := GenOutput{Stats: map[string]int{}}
@@ -642,7 +645,7 @@ func planC08(g *Gen, tier string) GenOutput {
 			// an index column for Loc
 			idx := Col{Key: "index", Name: "index", Data: []Cell{}}
 			for r := 0; r < f.nrows() || (len(f.Cols) == 0 && r < 3); r++ {
-				idx.Data = append(idx.Data, []Cell{IntCell("int", 1), IntCell("int", 2), StrCell("a"), NilCell()}[g.r.Intn(4)])
+				idx.Data = append(idx.Data, locAlphabet[g.r.Intn(len(locAlphabet))])
 			}
 			nf := Frame{Cols: []Col{}}
 			for _, c := range f.Cols {
@@ -909,6 +912,21 @@ func planC17seq(g *Gen, tier string) GenOutput {
 		res.Hists = append(res.Hists, RunHist("apply", []Frame{f}, ops))
 		bump(res.Stats, fmt.Sprintf("rows<=%d", sp.MaxRows))
 	}
+	// many more rows than workers, with a function that hands back its argument slice: a worker that
+	// reuses a buffer across rows, or a collector that keeps a reference, shows up in the content
+	for i := 0; i < scale(tier, 6, 40); i++ {
+		n := 300 + g.r.Intn(1500)
+		a := Col{Key: "a", Name: "a", Data: []Cell{}}
+		b := Col{Key: "b", Name: "b", Data: []Cell{}}
+		for r := 0; r < n; r++ {
+			a.Data = append(a.Data, IntCell("int", int64(r)))
+			b.Data = append(b.Data, IntCell("int", int64(-r)))
+		}
+		ax := []int64{1}
+		ops := []Op{{K: "apply", F: 0, Fn: 9, Axis: &ax}, {K: "apply", F: 0, Fn: 1, Axis: &ax}}
+		res.Hists = append(res.Hists, RunHist("apply-many-rows", []Frame{mkFrame(a, b)}, ops))
+		bump(res.Stats, "many-rows")
+	}
 	return res
 }
 
@@ -1039,7 +1057,7 @@ func planC17sched(g *Gen, tier string) GenOutput {
 			n = 6 + g.r.Intn(10)
 		}
 		mode := g.r.Intn(3)
-		runOne(fmt.Sprintf("sampled rows=%d", n), mk(n), []int{1, 0, 3, 8}[g.r.Intn(4)], func(w []int, k int) int {
+		runOne(fmt.Sprintf("sampled rows=%d", n), mk(n), []int{1, 0, 3, 8, 9, 9}[g.r.Intn(6)], func(w []int, k int) int {
 			switch mode {
 			case 0:
 				return w[g.r.Intn(len(w))]
